@@ -4515,6 +4515,8 @@ class ParseCtx:
         i = 0
         while i < len(contents):
             if contents[i] != '\\':
+                if ord(contents[i]) > 255:
+                    raise IllegalParseTree("Characters beyond one byte are not supported (use \\x escapes for the bytes of an encoding), in string literal " + escaped_string)
                 result += contents[i]
                 i += 1
             else:
